@@ -21,16 +21,16 @@ VecExpected(e) ==
   IN CASE e.op = "vec.new" -> [i \in 1..4 |-> VLV(o.lanes_in[i])]
        [] e.op = "vec.mul_consts" -> [i \in 1..4 |-> FMul(a[i], BMod(BN(e.c[i], LEN + 4), P))]
        [] e.op = "vec.op1" ->
-            CASE e.f = "reduce" -> a
+           (CASE e.f = "reduce" -> a
               [] e.f \in {"negate_lazy", "neg"} -> [i \in 1..4 |-> FNeg(a[i])]
               [] e.f = "diff_sum" -> <<FSub(a[2], a[1]), FAdd(a[2], a[1]), FSub(a[4], a[3]), FAdd(a[4], a[3])>>
               [] e.f = "square_and_negate_D" -> <<FSq(a[1]), FSq(a[2]), FSq(a[3]), FNeg(FSq(a[4]))>>
               [] e.f = "square" -> [i \in 1..4 |-> FSq(a[i])]
-              [] e.f = "shuffle" -> [i \in 1..4 |-> a[e.perm[i]]]
+              [] e.f = "shuffle" -> [i \in 1..4 |-> a[e.perm[i]]])
        [] e.op = "vec.op2" ->
-            CASE e.f = "mul" -> [i \in 1..4 |-> FMul(a[i], b[i])]
+           (CASE e.f = "mul" -> [i \in 1..4 |-> FMul(a[i], b[i])]
               [] e.f = "add" -> [i \in 1..4 |-> FAdd(a[i], b[i])]
-              [] e.f = "blend" -> [i \in 1..4 |-> IF e.mask[i] = 1 THEN b[i] ELSE a[i]]
+              [] e.f = "blend" -> [i \in 1..4 |-> IF e.mask[i] = 1 THEN b[i] ELSE a[i]])
 \* documented post-bounds (AVX2 lanes): a bound claimed by the generator for this result ("bound" = excess bits x 1000)
 VecBoundOK(e) ==
   ~Has(e, "bound_even") \/ (BLe(e.obs.max_even, e.bound_even) /\ BLe(e.obs.max_odd, e.bound_odd))
